@@ -8,6 +8,8 @@ package internal
 
 import (
 	"bytes"
+	"context"
+	"crypto/sha256"
 	"fmt"
 	"io"
 	"os"
@@ -16,7 +18,9 @@ import (
 	"regexp"
 	"runtime/debug"
 	"strings"
+	"sync"
 	"testing"
+	"time"
 	"unicode/utf8"
 
 	"github.com/maruel/panicparse/v2/internal/verifx/gen"
@@ -142,6 +146,57 @@ const (
 // the real pp binary, is used instead.
 var processFn = processViaBinary
 
+// guardReader / guardWriter bound what one process() run may do, so that a pipeline
+// that stops making progress is reported instead of eating the machine: more than
+// guardIdleReads Reads after the input has ended, or more than guardMaxOut bytes of
+// output, end the run with a panic that the callers report like any other panic.
+// Both are counts, not clocks: on a terminating pipeline the first is bounded by the
+// number of ScanSnapshot calls (one per dump) and the second by the input size.
+const (
+	guardIdleReads = 5000
+	guardMaxOut    = 256 << 20
+)
+
+type guardReader struct {
+	r     io.Reader
+	ended bool
+	idle  int
+}
+
+func (g *guardReader) Read(p []byte) (int, error) {
+	n, err := g.r.Read(p)
+	if g.ended && n == 0 {
+		g.idle++
+		if g.idle > guardIdleReads {
+			panic(fmt.Sprintf("verif: no termination: the pipeline read its input %d more times after the input had ended", g.idle))
+		}
+	}
+	if err != nil {
+		g.ended = true
+	}
+	return n, err
+}
+
+type guardWriter struct {
+	w io.Writer
+	n int
+}
+
+func (g *guardWriter) Write(p []byte) (int, error) {
+	g.n += len(p)
+	if g.n > guardMaxOut {
+		panic(fmt.Sprintf("verif: no termination: the pipeline wrote more than %d bytes", guardMaxOut))
+	}
+	return g.w.Write(p)
+}
+
+// guarded wraps a processFn with the two guards.
+func guarded(f func(io.Reader, io.Writer, renderCfg, bool) error) func(io.Reader, io.Writer, renderCfg, bool) error {
+	return func(in io.Reader, out io.Writer, c renderCfg, parse bool) error {
+		return f(&guardReader{r: in}, &guardWriter{w: out}, c, parse)
+	}
+}
+
 var processKind = "pp binary (exec)"
 
 // processInProcess: processFn runs inside this process (readers and writers are the harness's).
@@ -183,7 +238,7 @@ func processViaBinary(in io.Reader, out io.Writer, c renderCfg, parse bool) erro
 	if pp == "" {
 		return fmt.Errorf("verif: no pp binary")
 	}
-	cmd := exec.Command(pp, cfgFlags(c, parse)...)
+	cmd := ppCommand(pp, cfgFlags(c, parse)...)
 	cmd.Stdin = in
 	cmd.Stdout = out
 	var se bytes.Buffer
@@ -199,15 +254,81 @@ func processViaBinary(in io.Reader, out io.Writer, c renderCfg, parse bool) erro
 
 var reCrashReport = regexp.MustCompile(`(?m)^(panic: |fatal error: |goroutine \d+ \[)`)
 
-func runProcess(in []byte, c renderCfg) (out string, err error, panicked string) {
-	defer func() {
-		if e := recover(); e != nil {
-			panicked = fmt.Sprintf("%v\n%s", e, debug.Stack())
-		}
+// watchdogLimit bounds one process() run. The inputs of the harness are at most a few
+// hundred kilobytes and take milliseconds; a run that is still going after this long
+// does not terminate (a pipeline that spins on an unconsumed remainder neither reads
+// nor writes, so only a clock can see it). The goroutine cannot be stopped: callers
+// stop exploring once hung is set, so the process ends soon after.
+const watchdogLimit = 90 * time.Second
+
+var (
+	hungMu     sync.Mutex
+	hungInputs = map[string]string{}
+)
+
+// hung reports whether some process() run did not terminate.
+func hung() bool {
+	hungMu.Lock()
+	defer hungMu.Unlock()
+	return len(hungInputs) != 0
+}
+
+type processResult struct {
+	out      string
+	err      error
+	panicked string
+}
+
+// watchedProcess runs processFn on its own goroutine under the watchdog; key identifies
+// the (input, configuration) so that the re-executions of a hanging run are answered
+// from the first observation instead of starting more spinning goroutines.
+func watchedProcess(key string, in io.Reader, c renderCfg, parse bool) processResult {
+	hungMu.Lock()
+	if p, ok := hungInputs[key]; ok {
+		hungMu.Unlock()
+		return processResult{panicked: p}
+	}
+	if len(hungInputs) != 0 {
+		// the process already carries a spinning goroutine: nothing more is run
+		hungMu.Unlock()
+		return processResult{panicked: "verif: no termination: not run, an earlier process() run in this shard is still spinning"}
+	}
+	hungMu.Unlock()
+	ch := make(chan processResult, 1)
+	go func() {
+		var r processResult
+		var buf bytes.Buffer
+		defer func() {
+			if e := recover(); e != nil {
+				r.panicked = fmt.Sprintf("%v\n%s", e, debug.Stack())
+			}
+			r.out = buf.String()
+			ch <- r
+		}()
+		r.err = processFn(in, &buf, c, parse)
 	}()
-	var buf bytes.Buffer
-	err = processFn(bytes.NewReader(in), &buf, c, false)
-	return buf.String(), err, ""
+	select {
+	case r := <-ch:
+		return r
+	case <-time.After(watchdogLimit):
+		p := fmt.Sprintf("verif: no termination: process() still running after %v", watchdogLimit)
+		hungMu.Lock()
+		hungInputs[key] = p
+		hungMu.Unlock()
+		return processResult{panicked: p}
+	}
+}
+
+func runProcess(in []byte, c renderCfg) (out string, err error, panicked string) {
+	r := watchedProcess(fmt.Sprintf("%x/%+v", sha256.Sum256(in), c), bytes.NewReader(in), c, false)
+	return r.out, r.err, r.panicked
+}
+
+// ppCommand is exec.Command(pp, args...) killed after 2 minutes (a pp that does not
+// terminate then shows as a failing run instead of hanging the check).
+func ppCommand(pp string, args ...string) *exec.Cmd {
+	ctx, _ := context.WithTimeout(context.Background(), 2*time.Minute)
+	return exec.CommandContext(ctx, pp, args...)
 }
 
 // block is one rendered bucket / goroutine.
@@ -597,7 +718,7 @@ func TestVerifC16(t *testing.T) {
 				if p != "" {
 					continue
 				}
-				cmd := exec.Command(pp, append(flags, "-parse=false")...)
+				cmd := ppCommand(pp, append(flags, "-parse=false")...)
 				cmd.Stdin = bytes.NewReader(in)
 				var so, se bytes.Buffer
 				cmd.Stdout, cmd.Stderr = &so, &se
